@@ -9,6 +9,9 @@
 // up to the relative order of events of different threads — cases with a section print events grouped by that first
 // byte (stable), on both sides.
 //
+// Built twice from this file: `s_c04` (ABI v1, engine word `span`) and `s_c04_v2` (OPENTELEMETRY_ABI_VERSION_NO=2, engine
+// word `span2`), which additionally understands `link` / `links` (Span::AddLink / Span::AddLinks).
+//
 // Line syntax and output: see lean/Driver/C04.lean.
 #include <algorithm>
 #include <atomic>
@@ -183,6 +186,34 @@ struct Links : public trace_api::SpanContextKeyValueIterable
   size_t size() const noexcept override { return links.size(); }
 };
 
+#if OPENTELEMETRY_ABI_VERSION_NO >= 2
+static const char *const kEngine = "span2";
+#else
+static const char *const kEngine = "span";
+#endif
+
+// `-` | <tid>/<sid>/<flags>/<attrs> joined by `|`
+static bool parse_links(const std::string &tok, std::vector<LinkArg> &out)
+{
+  if (tok == "-") return true;
+  for (auto &ltok : vh::split_on(tok, '|'))
+  {
+    auto p = vh::split_on(ltok, '/');
+    std::string tid, sid, fl;
+    if (p.size() != 4 || !vh::from_hex(p[0], tid) || !vh::from_hex(p[1], sid) || !vh::from_hex(p[2], fl)) return false;
+    LinkArg l;
+    l.attrs.reset(new vh::Attrs);
+    if (!l.attrs->parse(p[3])) return false;
+    if (fl.size() != 1 || tid.size() != 16 || sid.size() != 8) return false;
+    l.ctx = trace_api::SpanContext(
+        trace_api::TraceId(nostd::span<const uint8_t, 16>(reinterpret_cast<const uint8_t *>(tid.data()), 16)),
+        trace_api::SpanId(nostd::span<const uint8_t, 8>(reinterpret_cast<const uint8_t *>(sid.data()), 8)),
+        trace_api::TraceFlags(static_cast<uint8_t>(fl[0])), true);
+    out.push_back(std::move(l));
+  }
+  return true;
+}
+
 struct Op
 {
   int thread = -1;
@@ -190,7 +221,8 @@ struct Op
   std::string s1;      // name / key / description (raw bytes)
   std::string valtok;  // attribute value token, parsed into fresh caller memory when the op runs
   std::string attrtok;
-  int64_t n = 0;       // timestamp / status code / end steady time
+  std::string linktok;  // link / links argument (ABI v2), parsed into fresh caller memory when the op runs
+  int64_t n = 0;        // timestamp / status code / end steady time
 };
 
 static bool parse_op(std::vector<std::string> t, Op &op)
@@ -226,12 +258,21 @@ static bool parse_op(std::vector<std::string> t, Op &op)
   if (op.kind == "end" && t.size() == 2) return vh::parse_i(64, t[1], op.n);
   if ((op.kind == "flush" || op.kind == "isrec") && t.size() == 1) return true;
   if ((op.kind == "par" || op.kind == "seq") && t.size() == 1 && op.thread < 0) return true;
+#if OPENTELEMETRY_ABI_VERSION_NO >= 2
+  if ((op.kind == "link" || op.kind == "links") && t.size() == 2)
+  {
+    std::vector<LinkArg> ls;
+    op.linktok = t[1];
+    if (!parse_links(t[1], ls)) return false;
+    return op.kind == "links" || ls.size() == 1;
+  }
+#endif
   return false;
 }
 
 static std::string handle(const std::vector<std::string> &toks)
 {
-  if (toks.empty() || toks[0] != "span") return "bad-op";
+  if (toks.empty() || toks[0] != kEngine) return "bad-op";
   auto segs = vh::split_ops(toks, 1);
   auto &c   = segs[0];
   if (c.size() != 9) return "bad-op";
@@ -253,24 +294,7 @@ static std::string handle(const std::vector<std::string> &toks)
   std::unique_ptr<vh::Attrs> start_attrs(new vh::Attrs);
   if (!start_attrs->parse(c[7])) return "bad-op";
   std::unique_ptr<Links> links(new Links);
-  if (c[8] != "-")
-  {
-    for (auto &ltok : vh::split_on(c[8], '|'))
-    {
-      auto p = vh::split_on(ltok, '/');
-      std::string tid, sid, fl;
-      if (p.size() != 4 || !vh::from_hex(p[0], tid) || !vh::from_hex(p[1], sid) || !vh::from_hex(p[2], fl)) return "bad-op";
-      LinkArg l;
-      l.attrs.reset(new vh::Attrs);
-      if (!l.attrs->parse(p[3])) return "bad-op";
-      if (fl.size() != 1 || tid.size() != 16 || sid.size() != 8) return "bad-op";
-      l.ctx = trace_api::SpanContext(
-          trace_api::TraceId(nostd::span<const uint8_t, 16>(reinterpret_cast<const uint8_t *>(tid.data()), 16)),
-          trace_api::SpanId(nostd::span<const uint8_t, 8>(reinterpret_cast<const uint8_t *>(sid.data()), 8)),
-          trace_api::TraceFlags(static_cast<uint8_t>(fl[0])), true);
-      links->links.push_back(std::move(l));
-    }
-  }
+  if (!parse_links(c[8], links->links)) return "bad-op";
   std::vector<Op> ops;
   for (size_t i = 1; i < segs.size(); i++)
   {
@@ -385,6 +409,16 @@ static std::string handle(const std::vector<std::string> &toks)
     }
     else if (op.kind == "flush") flush();
     else if (op.kind == "isrec") rec.push_back(span->IsRecording() ? "1" : "0");
+#if OPENTELEMETRY_ABI_VERSION_NO >= 2
+    else if (op.kind == "link" || op.kind == "links")
+    {
+      std::unique_ptr<Links> ls(new Links);
+      parse_links(op.linktok, ls->links);
+      if (op.kind == "link") span->AddLink(ls->links[0].ctx, *ls->links[0].attrs);
+      else span->AddLinks(*ls);
+      // the link list, its contexts and attribute blocks die here
+    }
+#endif
     // s1 and every value block die here, right after the call
   };
   for (size_t i = 0; i < ops.size(); i++)
